@@ -128,7 +128,8 @@ func c19Parse(src string) c19Tree {
 		walk(n, false)
 		findPre(n)
 	}
-	t.texts = []string{strings.Join(strings.Fields(allText.String()), " ")}
+	// runs of the white space HTML collapses count as one blank; every other character - the no-break space included - is text
+	t.texts = []string{strings.Join(strings.FieldsFunc(allText.String(), func(r rune) bool { return strings.ContainsRune(" \t\n\f\r", r) }), " ")}
 	sort.Strings(t.mustaches)
 	return t
 }
@@ -298,7 +299,9 @@ func c19Generate(g *srcGen) string {
 	}
 	texts := []string{"word", "two words", "a &lt; b", "x &amp; y", "{{ a < b }}", "{{ x > 1 && y }}", "{{ name }}", "1 &gt; 0", "&copy; 2024", "{{ a & b }} tail",
 		// braces that do not form a mustache, next to character references: the text after them is still text
-		"{{ open &lt;b&gt; after", "a }} &amp; {{ b", "{ single } &lt; brace", "{{ x }} &lt; {{ unclosed &gt; end", "&amp;#38; twice"}
+		"{{ open &lt;b&gt; after", "a }} &amp; {{ b", "{ single } &lt; brace", "{{ x }} &lt; {{ unclosed &gt; end", "&amp;#38; twice",
+		// spaces HTML does NOT collapse are content: alone in an element, between two elements, at the edge of a text
+		"&nbsp;", "&#160;", "&emsp;", "\u3000", "10&nbsp;km", "&nbsp;lead", "trail&nbsp;", "a &nbsp; b"}
 	var block func(d int, inline bool) string
 	block = func(d int, inline bool) string {
 		g.n++
